@@ -124,15 +124,19 @@ func (c *ctx) validate(hf []*types.Var) map[int]*types.Var {
 	recv := recvObj(info, fd)
 	ps := params(info, fd)
 	role := map[int]*types.Var{}
-	eqField := map[*ast.CallExpr]*types.Var{}
-	for _, call := range core.Calls(fd.Body) {
-		if !core.IsCallTo(info, call, "bytes.Equal") || len(call.Args) != 2 {
-			continue
-		}
+	// an equality test between a header field and a parameter: bytes.Equal(a, b), or the
+	// comparison string(a) == string(b) / string(a) != string(b) (the documented meaning of bytes.Equal)
+	eqField := map[ast.Node]*types.Var{}
+	eqNeg := map[ast.Node]bool{} // the node is true when the two are NOT equal
+	note := func(n ast.Node, x, y ast.Expr, neg bool) {
 		var fld *types.Var
 		pi := -1
-		for _, a := range call.Args {
-			if sel, ok := ast.Unparen(a).(*ast.SelectorExpr); ok && core.ObjOf(info, sel.X) == recv {
+		for _, a := range []ast.Expr{x, y} {
+			a = ast.Unparen(a)
+			if cv, ok := a.(*ast.CallExpr); ok && core.IsConversion(info, cv) && len(cv.Args) == 1 {
+				a = ast.Unparen(cv.Args[0])
+			}
+			if sel, ok := a.(*ast.SelectorExpr); ok && core.ObjOf(info, sel.X) == recv {
 				fld, _ = info.Uses[sel.Sel].(*types.Var)
 			}
 			for i, po := range ps {
@@ -142,13 +146,37 @@ func (c *ctx) validate(hf []*types.Var) map[int]*types.Var {
 			}
 		}
 		if fld != nil && pi >= 0 {
-			eqField[call] = fld
+			eqField[n] = fld
+			eqNeg[n] = neg
 			if old, dup := role[pi]; dup && old != fld {
-				r.Bad("INT-1", fn+"|param-reuse", p.Pos(call.Pos()), "one parameter is compared with two header fields")
+				r.Bad("INT-1", fn+"|param-reuse", p.Pos(n.Pos()), "one parameter is compared with two header fields")
 			}
 			role[pi] = fld
 		}
 	}
+	ast.Inspect(fd.Body, func(n ast.Node) bool {
+		switch x := n.(type) {
+		case *ast.CallExpr:
+			if core.IsCallTo(info, x, "bytes.Equal") && len(x.Args) == 2 {
+				note(x, x.Args[0], x.Args[1], false)
+			}
+		case *ast.BinaryExpr:
+			if x.Op == token.EQL || x.Op == token.NEQ {
+				isStrConv := func(e ast.Expr) bool {
+					cv, ok := ast.Unparen(e).(*ast.CallExpr)
+					if !ok || !core.IsConversion(info, cv) {
+						return false
+					}
+					b, ok := info.Types[cv].Type.Underlying().(*types.Basic)
+					return ok && b.Kind() == types.String
+				}
+				if isStrConv(x.X) && isStrConv(x.Y) {
+					note(x, x.X, x.Y, x.Op == token.NEQ)
+				}
+			}
+		}
+		return true
+	})
 	covered := map[*types.Var]bool{}
 	for _, f := range role {
 		covered[f] = true
@@ -173,10 +201,8 @@ func (c *ctx) validate(hf []*types.Var) map[int]*types.Var {
 		Node: func(s int, n ast.Node) (int, bool) { return s, false },
 		Edge: func(s int, cond ast.Expr, taken bool) int {
 			core.Facts(cond, taken, func(atom ast.Expr, val bool) {
-				if call, ok := atom.(*ast.CallExpr); ok && val {
-					if f := eqField[call]; f != nil {
-						s |= 1 << idx[f]
-					}
+				if f := eqField[ast.Unparen(atom)]; f != nil && val != eqNeg[ast.Unparen(atom)] {
+					s |= 1 << idx[f]
 				}
 			})
 			return s
